@@ -1134,6 +1134,9 @@ def load_func_for_dataclass(
             with fn_gen.try_():
 
                 if expect_tag_as_unknown_key and pre_assign:
+                    # `field` is read by the error handler below, and the
+                    # membership test fails when `o` is not a `dict`.
+                    fn_gen.add_line('field = None')
                     with fn_gen.if_(f'{meta.tag_key!r} in o'):
                         fn_gen.add_line('i+=1')
 
